@@ -55,16 +55,20 @@ def roles(crate):
     R.ITEM, R.PRIO, R.LEFT, R.RIGHT = (names.index(n) for n in ("item", "priority", "left", "right"))
     R.crate = crate
     R.wrappers = {}
-    R.merge = _worker(crate, R, util.need_body(crate, "TreapNode::<T>::merge"))
-    R.split_by = _worker(crate, R, util.need_body(crate, "TreapNode::<T>::split_by"))
-    R.split_at = _worker(crate, R, util.need_body(crate, "TreapNode::<T>::split_at"))
+    R.wrapper_pairs = []
+    R.pub = {nm: util.need_body(crate, "TreapNode::<T>::%s" % nm) for nm in ("merge", "split_by", "split_at")}
+    R.work = {nm: _worker(crate, R, R.pub[nm]) for nm in ("merge", "split_by", "split_at")}
+    R.merge, R.split_by, R.split_at = R.work["merge"], R.work["split_by"], R.work["split_at"]
+    # one private recursive skeleton shared by both splits, each handing it its own decision closure
+    R.shared_split = R.split_by.key == R.split_at.key and R.pub["split_by"].key != R.split_by.key
     R.push = util.need_body(crate, "TreapNode::<T>::push")
     R.update = util.need_body(crate, "TreapNode::<T>::update")
     R.collect_into = util.need_body(crate, "TreapNode::<T>::collect_into")
     R.new = util.need_body(crate, "TreapNode::<T>::new")
-    role_fns = [R.merge, R.split_by, R.split_at, R.push, R.update, R.collect_into, R.new] + list(R.wrappers.values())
+    role_fns = [R.merge, R.split_by, R.split_at, R.push, R.update, R.collect_into, R.new] + [w_ for _k, w_ in R.wrapper_pairs]
     R.helpers = util.private_helpers(crate, "TreapNode", exclude=role_fns) + util.private_helpers(crate, "Treap", exclude=role_fns)
-    R.A = util.analyser(R.helpers)
+    # closures handed to private helpers (`node.replace_right(|mid| Self::merge(mid, r))`) are applied where called
+    R.A = util.analyser(R.helpers, features=("fncall",))
     # for the Treap-level compositions, public convenience constructors of the node (new_boxed, ...) are inlined too
     rk = {x.key for x in role_fns if x is not None}
     pubh = [m for m in util.methods_of(crate, "TreapNode") + util.methods_of(crate, "Treap") if m.key not in rk and not util.self_recursive(m) and m not in R.helpers and m.name not in ("first", "last", "collect")]
@@ -96,6 +100,7 @@ def _worker(crate, R, b):
     if len(cands) != 1:
         raise Anchor("%s is neither self-recursive nor a wrapper of exactly one private recursive worker" % b.path)
     R.wrappers[cands[0].key] = b
+    R.wrapper_pairs.append((cands[0], b))
     return cands[0]
 
 
@@ -140,9 +145,11 @@ def check(col, prog, tier, profile, fixture=None):
     col.rule("T6" + sfx, "insert_at/remove_at/merge/split wrappers are the stated compositions", floor=5)
 
     # ---------------- T1 / T2 on the three restructuring functions
-    for b in (R.merge, R.split_by, R.split_at):
+    for nm_, b in (("merge", R.merge), ("split_by", R.split_by), ("split_at", R.split_at)):
         I = R.A(b)
         nbranch = 0
+        # a skeleton shared by both splits is judged once per public entry, under that entry's name
+        kb_ = fk(R.pub[nm_]) if (R.shared_split and nm_ != "merge") else fk(b)
         for n, st in enumerate(I.final_states):
             evs = st.event_list()
             touch = node_touches(evs, R)
@@ -156,7 +163,7 @@ def check(col, prog, tier, profile, fixture=None):
                 pushes = [i for i, ev in enumerate(evs) if is_call_to(ev, R.push) and ev.args[0] == ("ref", X)]
                 updates = [i for i, ev in enumerate(evs) if is_call_to(ev, R.update) and ev.args[0] == ("ref", X)]
                 which = "left" if stores[-1][2] == R.LEFT else "right"
-                key = "%s|relink-%s" % (fk(b), which)
+                key = "%s|relink-%s" % (kb_, which)
                 loc = b.loc(stores[-1][3].bb, stores[-1][3].idx)
                 if pushes and min(pushes) < first:
                     col.ok("T1" + sfx, loc, key, "push at event %d precedes first touch at %d" % (min(pushes), first))
@@ -167,13 +174,13 @@ def check(col, prog, tier, profile, fixture=None):
                 else:
                     col.violation("T2" + sfx, key, loc, "%s reassigns the %s child of a node and returns it without recomputing the node's aggregate (update) afterwards" % (b.path, which), {"events": [repr(e) for e in evs if e.kind != "assert"]})
         if nbranch < 2:
-            col.violation("T1" + sfx, "%s|relink-branches" % fk(b), b.loc(), "expected two relinking branches in %s, found %d" % (b.path, nbranch))
+            col.violation("T1" + sfx, "%s|relink-branches" % kb_, b.loc(), "expected two relinking branches in %s, found %d" % (b.path, nbranch))
 
     # ---------------- T3 reading walks
     for nm, fld in (("first", R.LEFT), ("last", R.RIGHT)):
         b = util.need_body(crate, "Treap::<T>::%s" % nm)
         # a walk shared by first/last through a private helper taking the child selector as a closure
-        I = util.analyser(R.helpers, features=("fncall",))(b)
+        I = util.analyser(R.helpers, features=("fncall", "comb"))(b)
         backs = [s for l in I.backedge_states.values() for s in l] + list(I.inl_back)
         if not backs:
             col.violation("T3" + sfx, "%s|loop" % fk(b), b.loc(), "%s: no descent loop found" % b.path)
@@ -190,6 +197,12 @@ def check(col, prog, tier, profile, fixture=None):
                         X, f = child_field_of(pl[1][1], R)
                         if any(s[0] == "phi" for s in subterms(X)):
                             moved = (X, f)
+                    # &*(X.fld.as_deref_mut() as Some).0 : the same move spelled with the dereferencing accessor
+                    for c_ in subterms(pl):
+                        if c_[0] == "call" and str(c_[1]).rsplit("::", 1)[-1] in ("as_deref_mut", "as_mut") and c_[2] and c_[2][0][0] == "ref" and child_field_of(c_[2][0][1], R):
+                            X, f = child_field_of(c_[2][0][1], R)
+                            if any(s[0] == "phi" for s in subterms(X)):
+                                moved = (X, f)
             key = "%s|descent" % fk(b)
             if moved is None:
                 col.violation("T3" + sfx, key, b.loc(), "%s: cannot identify the move to a child in the descent loop" % b.path)
@@ -197,7 +210,7 @@ def check(col, prog, tier, profile, fixture=None):
             X, f = moved
             SX = strip_mem(X)
             pushes = [i for i, e in enumerate(evs) if i > li and is_call_to(e, R.push) and strip_mem(e.args[0]) == ("ref", SX)]
-            moves = [i for i, e in enumerate(evs) if i > li and e.kind == "call" and e.extra.get("name") == "as_mut" and strip_mem(e.args[0]) == ("ref", ("field", SX, f))]
+            moves = [i for i, e in enumerate(evs) if i > li and e.kind == "call" and e.extra.get("name") in ("as_mut", "as_deref_mut") and strip_mem(e.args[0]) == ("ref", ("field", SX, f))]
             ok = f == fld and pushes and moves and min(pushes) < min(moves)
             if ok:
                 col.ok("T3" + sfx, b.loc(evs[pushes[0]].bb), key, "node.push() precedes the move to node.%s" % ("left" if f == R.LEFT else "right"))
@@ -320,8 +333,9 @@ def check(col, prog, tier, profile, fixture=None):
     # ---------------- T6 compositions
     _compositions(col, R, crate, sfx)
     # public wrappers of private recursive workers forward their parameters in order and return the result
-    for wk, w in R.wrappers.items():
-        worker = crate.by_key[wk]
+    for worker, w in R.wrapper_pairs:
+        if R.shared_split and worker.key == R.split_by.key:
+            continue   # the two entries of a shared skeleton hand over closures: judged by the T4 closure rules
         I = R.A(w)
         for st in I.final_states:
             calls = [e for e in st.event_list() if is_call_to(e, worker)]
@@ -352,8 +366,9 @@ def _known_none(facts, X):
 
 def _split_rules(col, R, sfx):
     fk = util.fkey
-    for b, positional in ((R.split_at, True), (R.split_by, False)):
+    for nm_, b, positional in (("split_at", R.split_at, True), ("split_by", R.split_by, False)):
         I = R.A(b)
+        kb = fk(R.pub[nm_]) if R.shared_split else fk(b)
         root = ("param", 1, I.names.get(1))
         pos = ("param", 2, I.names.get(2))
         Lterm = None
@@ -365,9 +380,9 @@ def _split_rules(col, R, sfx):
                 ret = util.ret_term(st)
                 ok = ret[0] == "agg" and all(x[0] == "agg" and x[1][3] == "None" for x in ret[2])
                 if ok:
-                    col.ok("T4" + sfx, b.loc(), "%s|empty" % fk(b), "empty tree splits into (None, None)", nontrivial=False)
+                    col.ok("T4" + sfx, b.loc(), "%s|empty" % kb, "empty tree splits into (None, None)", nontrivial=False)
                 else:
-                    col.violation("T4" + sfx, "%s|empty" % fk(b), b.loc(), "split of an empty tree must return (None, None), returns %s" % tstr(ret))
+                    col.violation("T4" + sfx, "%s|empty" % kb, b.loc(), "split of an empty tree must return (None, None), returns %s" % tstr(ret))
                 continue
             e = rec[0]
             a0 = e.args[0]
@@ -381,7 +396,7 @@ def _split_rules(col, R, sfx):
             if side == R.RIGHT:
                 right_going = (st, e)
                 ok = ret == ("agg", "tuple", (root, res1)) and stores and stores[0].place == ("field", X, R.RIGHT) and stores[0].val == res0
-                key = "%s|right-going-assembly" % fk(b)
+                key = "%s|right-going-assembly" % kb
                 if ok:
                     col.ok("T4" + sfx, b.loc(e.bb), key, "root.right = a; return (root, b)")
                 else:
@@ -389,15 +404,18 @@ def _split_rules(col, R, sfx):
             elif side == R.LEFT:
                 left_going = (st, e)
                 ok = ret == ("agg", "tuple", (res0, root)) and stores and stores[0].place == ("field", X, R.LEFT) and stores[0].val == res1
-                key = "%s|left-going-assembly" % fk(b)
+                key = "%s|left-going-assembly" % kb
                 if ok:
                     col.ok("T4" + sfx, b.loc(e.bb), key, "root.left = b; return (a, root)")
                 else:
                     col.violation("T4" + sfx, key, b.loc(e.bb), "left-going split must set root.left to the second part of the recursive result and return (first part, root); got return %s" % tstr(ret))
             else:
-                col.violation("T4" + sfx, "%s|recursion-target" % fk(b), b.loc(e.bb), "split recurses on %s which is not a child of the root" % tstr(a0))
+                col.violation("T4" + sfx, "%s|recursion-target" % kb, b.loc(e.bb), "split recurses on %s which is not a child of the root" % tstr(a0))
         if right_going is None or left_going is None:
-            col.violation("T4" + sfx, "%s|branches" % fk(b), b.loc(), "split must have a right-going and a left-going recursive branch")
+            col.violation("T4" + sfx, "%s|branches" % kb, b.loc(), "split must have a right-going and a left-going recursive branch")
+            continue
+        if R.shared_split:
+            _shared_decision(col, R, sfx, nm_, positional, I, right_going, left_going, kb)
             continue
         if not positional:
             # split_by: the branch is decided by the predicate applied to root.item; right-going iff true
@@ -408,7 +426,7 @@ def _split_rules(col, R, sfx):
                 if isinstance(t, tuple) and t and t[0] == "call" and ("call_mut" in str(t[1]) or "ops::Fn" in str(t[1])):
                     if (f[0] == "eq" and f[2] == 1) or (f[0] == "ne" and f[2] == 0):
                         ok = any(s[0] == "field" and s[2] == R.ITEM for s in subterms(t))
-            key = "%s|predicate-true-goes-right" % fk(b)
+            key = "%s|predicate-true-goes-right" % kb
             if ok:
                 col.ok("T4" + sfx, b.loc(e.bb), key, "pred(root.item) true => root belongs to the left part, recurse right")
             else:
@@ -420,7 +438,7 @@ def _split_rules(col, R, sfx):
         # L := pos - 1 - arg  as a linear form; it must reduce to a single atom
         d = zones.lin_sub(zones.lin_sub(zones.linearize(pos), zones.linearize(arg)), ({}, 1))
         atoms = [(a, c) for a, c in d[0].items()]
-        key = "%s|right-going-arith" % fk(b)
+        key = "%s|right-going-arith" % kb
         if len(atoms) != 1 or atoms[0][1] != 1 or d[1] != 0:
             col.violation("T4" + sfx, key, b.loc(e.bb), "right-going recursion position %s is not pos - L - 1 for a single term L" % tstr(arg))
             continue
@@ -435,11 +453,141 @@ def _split_rules(col, R, sfx):
             col.violation("T4" + sfx, key, b.loc(e.bb), "right-going branch: %s" % ("facts do not entail pos > L so pos - L - 1 can underflow / mis-split at pos == L" if not under else "L = %s is not the size of the left child" % tstr(Lterm)), {"L": tstr(Lterm), "facts": [(f[0], tstr(f[1]), f[2]) for f in st.facts if "pos" in tstr(f[1])]})
         st2, e2 = left_going
         z2 = zones.zone_of(st2.facts, I.tys)
-        key = "%s|left-going-arith" % fk(b)
+        key = "%s|left-going-arith" % kb
         if e2.args[1] == pos and z2.entails("Le", pos, Lterm):
             col.ok("T4" + sfx, b.loc(e2.bb), key, "pos <= L entailed for the same L; recursion with pos")
         else:
             col.violation("T4" + sfx, key, b.loc(e2.bb), "left-going branch must be taken exactly when pos <= L (same L as subtracted on the other branch) and recurse with pos unchanged; got position %s" % tstr(e2.args[1]))
+
+
+def _truth(f):
+    if f[0] == "eq" and f[2] in (0, 1):
+        return bool(f[2])
+    if f[0] == "ne" and f[2] in (0, 1):
+        return not bool(f[2])
+    return None
+
+
+def _shared_decision(col, R, sfx, nm, positional, I, right_going, left_going, kb):
+    """both splits run one private skeleton that asks a decision closure at every node (after the push) and goes
+    right when it says true.  Skeleton: the same closure is asked once on the node and handed on unchanged.
+    split_by's closure is pred(&node.item).  split_at's closure keeps the remaining position r (starting at pos)
+    behind a captured &mut: true exactly when r > L with r := r - L - 1, false exactly when r <= L with r unchanged,
+    L the size of the node's left child."""
+    fk = util.fkey
+    crate = R.crate
+    W = R.work[nm]
+    clo = ("param", 2, I.names.get(2))
+
+    def is_clo(a):
+        return a in (clo, ("ref", ("deref", clo)), ("ref", ("local", 2))) or (isinstance(a, tuple) and a and a[0] == "ref" and a[1] in (("deref", clo),))
+
+    ok = True
+    why = ""
+    for (st, e), want in ((right_going, True), (left_going, False)):
+        evs = st.event_list()
+        asks = [x for x in evs if x.kind == "call" and x.extra.get("name") in ("call_mut", "call", "call_once") and x.args and is_clo(x.args[0])]
+        a0 = e.args[0]
+        X = child_field_of(a0[2], R)[0] if a0[0] == "load" and child_field_of(a0[2], R) else None
+        if len(asks) != 1:
+            ok, why = False, "the decision closure is asked %d times for one node" % len(asks)
+            continue
+        q = asks[0]
+        on_node = X is not None and any(x == ("ref", X) or x == X for x in subterms(q.args[1]))
+        verdicts = [_truth(f) for f in st.facts if f[1] == q.res]
+        if not on_node or want not in verdicts or (not want) in verdicts:
+            ok, why = False, "the %s-going branch is not taken exactly when the closure answers %s for the node" % ("right" if want else "left", "true" if want else "false")
+        # handed on by reference, or by value (then it is the closure as the one question left it)
+        if not (len(e.args) >= 2 and (is_clo(e.args[1]) or e.args[1] == ("out", q.extra.get("uid"), 2))):
+            ok, why = False, "the recursive call does not hand on the same decision closure"
+    key = "%s|%s" % (kb, "predicate-true-goes-right" if not positional else "skeleton-decision")
+    if ok:
+        col.ok("T4" + sfx, W.loc(), key, "%s: closure asked once on the node; true => recurse right, false => recurse left; closure handed on" % W.name)
+    else:
+        col.violation("T4" + sfx, key, W.loc(), "%s: %s" % (W.path, why))
+    # ---- the closure this entry hands over
+    pb = R.pub[nm]
+    Iw = R.A(pb)
+    cv = None
+    fwd = bool(Iw.final_states)
+    for st in Iw.final_states:
+        calls = [x for x in st.event_list() if is_call_to(x, W)]
+        if len(calls) != 1 or util.ret_term(st) != calls[0].res or calls[0].args[0] != ("param", 1, Iw.names.get(1)):
+            fwd = False
+            continue
+        a1 = calls[0].args[1]
+        v = a1
+        if a1[0] == "ref" and a1[1][0] == "constval":
+            v = a1[1][1]
+        elif a1[0] == "ref":
+            v = (calls[0].extra.get("argvals") or [None, None])[1]
+        if isinstance(v, tuple) and v and v[0] == "agg" and isinstance(v[1], tuple) and v[1] and v[1][0] == "closure":
+            cv = v
+    cb = crate.by_key.get(cv[1][1]) if cv is not None else None
+    key = "%s|%s" % (kb, "decision-closure" if positional else "predicate-on-item")
+    if not fwd or cb is None:
+        col.violation("T4" + sfx, key, pb.loc(), "%s must hand the tree and a decision closure to %s and return its result unchanged" % (pb.path, W.path))
+        return
+    Ic = R.A(cb)
+    node = ("deref", ("param", 2, Ic.names.get(2)))
+    if not positional:
+        okp = bool(Ic.final_states) and len(cv[2]) == 1 and cv[2][0] in (("ref", ("local", 2)), ("param", 2, Iw.names.get(2)), ("ref", ("deref", ("param", 2, Iw.names.get(2)))))
+        for st in Ic.final_states:
+            r = util.ret_term(st)
+            asks = [x for x in st.event_list() if x.kind == "call" and x.extra.get("name") in ("call_mut", "call", "call_once")]
+            okp = okp and len(asks) == 1 and r == asks[0].res and any(x == ("ref", ("field", node, R.ITEM)) for x in subterms(asks[0].args[1])) and any(x[0] == "upvar" for x in [asks[0].args[0]] + list(subterms(asks[0].args[0])))
+        if okp:
+            col.ok("T4" + sfx, cb.loc(), key, "the closure is pred(&node.item): true => the node belongs to the left part")
+        else:
+            col.violation("T4" + sfx, key, cb.loc(), "split_by must decide each node by the caller's predicate applied to the node's item")
+        return
+    # positional: the counter behind the captured &mut starts at pos ...
+    caps = [c for c in cv[2] if isinstance(c, tuple) and c and c[0] == "ref" and c[1][0] == "local"]
+    start_ok = False
+    if len(cv[2]) == 1 and len(caps) == 1:
+        k = caps[0][1][1]
+        assigns = [sx for _bb, _i, sx in pb.statements() if sx["k"] == "assign" and sx["place"]["l"] == k and not sx["place"]["p"]]
+        start_ok = len(assigns) == 1 and assigns[0]["rv"]["k"] == "use" and assigns[0]["rv"].get("op", {}).get("k") in ("copy", "move") and assigns[0]["rv"]["op"]["place"]["l"] == 2 and not assigns[0]["rv"]["op"]["place"]["p"]
+    cell = ("deref", ("upvar", 0))
+    rem = ("load", ("m0",), cell)
+    Lterm = None
+    arith = bool(Ic.final_states) and start_ok
+    why = "the remaining-position counter does not start at pos" if not start_ok else ""
+    seen = set()
+    for st in Ic.final_states:
+        r = util.ret_term(st)
+        stores = [x for x in st.event_list() if x.kind == "store"]
+        z = zones.zone_of(st.facts, Ic.tys)
+        if r == mk_int(1):
+            seen.add(True)
+            if len(stores) != 1 or stores[0].place != cell:
+                arith, why = False, "going right must update the remaining position exactly once"
+                continue
+            d = zones.lin_sub(zones.lin_sub(zones.linearize(rem), zones.linearize(stores[0].val)), ({}, 1))
+            atoms = list(d[0].items())
+            if len(atoms) != 1 or atoms[0][1] != 1 or d[1] != 0:
+                arith, why = False, "going right must continue with r - L - 1 for a single term L, got %s" % tstr(stores[0].val)
+                continue
+            Lterm = atoms[0][0]
+            if not z.entails("Ge", stores[0].val, mk_int(0)):
+                arith, why = False, "facts do not entail r > L on the right-going answer: r - L - 1 can underflow / mis-split at r == L"
+        elif r == mk_int(0):
+            seen.add(False)
+            if stores:
+                arith, why = False, "going left must leave the remaining position unchanged"
+        else:
+            arith, why = False, "the decision is not a constant per path: %s" % tstr(r)
+    if arith and Lterm is not None:
+        for st in Ic.final_states:
+            if util.ret_term(st) == mk_int(0) and not zones.zone_of(st.facts, Ic.tys).entails("Le", rem, Lterm):
+                arith, why = False, "the left-going answer must be given exactly when r <= L (same L as subtracted on the other answer)"
+        if not (any(s_[0] == "field" and s_[1] == node and s_[2] == R.LEFT for s_ in subterms(Lterm)) and _is_left_size(Lterm, R)):
+            arith, why = False, "L = %s is not the size of the node's left child" % tstr(Lterm)
+    if arith and seen == {True, False} and Lterm is not None:
+        col.ok("T4" + sfx, cb.loc(), "%s|right-going-arith" % kb, "r starts at pos; true iff r > L with r := r - L - 1, L = size of left child or 0")
+        col.ok("T4" + sfx, cb.loc(), "%s|left-going-arith" % kb, "false iff r <= L for the same L; r unchanged")
+    else:
+        col.violation("T4" + sfx, "%s|right-going-arith" % kb, cb.loc(), "split_at's decision closure: %s" % (why or "both answers are needed"))
 
 
 def _is_left_size(L, R):
@@ -470,8 +618,10 @@ def _calls_role(e, R, role):
     if e.kind != "call":
         return False
     d = (e.fn.get("resolved") or e.fn).get("def")
-    w = R.wrappers.get(role.key)
-    return d == role.key or (w is not None and d == w.key)
+    if d == R.pub[role].key:
+        return True
+    # the worker itself, unless it is the skeleton both splits share (then only the public entry tells which split)
+    return d == R.work[role].key and not (R.shared_split and role in ("split_by", "split_at"))
 
 
 def _compositions(col, R, crate, sfx):
@@ -481,8 +631,8 @@ def _compositions(col, R, crate, sfx):
     I = R.A2(b)
     for st in I.final_states:
         evs = st.event_list()
-        sp = [e for e in evs if _calls_role(e, R, R.split_at)]
-        mg = [e for e in evs if _calls_role(e, R, R.merge)]
+        sp = [e for e in evs if _calls_role(e, R, "split_at")]
+        mg = [e for e in evs if _calls_role(e, R, "merge")]
         nw = [e for e in evs if is_call_to(e, R.new)]
         stores = [e for e in evs if e.kind == "store" and e.place[0] == "field" and e.place[2] == 0]
         ok = len(sp) == 1 and len(mg) == 2 and len(nw) == 1
@@ -515,8 +665,8 @@ def _compositions(col, R, crate, sfx):
     I = R.A2(b)
     for st in I.final_states:
         evs = st.event_list()
-        sp = [e for e in evs if _calls_role(e, R, R.split_at)]
-        mg = [e for e in evs if _calls_role(e, R, R.merge)]
+        sp = [e for e in evs if _calls_role(e, R, "split_at")]
+        mg = [e for e in evs if _calls_role(e, R, "merge")]
         stores = [e for e in evs if e.kind == "store" and e.place[0] == "field" and e.place[2] == 0]
         ok = len(sp) == 2 and len(mg) == 1
         if ok:
@@ -537,7 +687,7 @@ def _compositions(col, R, crate, sfx):
     b = util.need_body(crate, "Treap::<T>::merge")
     I = R.A2(b)
     for st in I.final_states:
-        mg = [e for e in st.event_list() if _calls_role(e, R, R.merge)]
+        mg = [e for e in st.event_list() if _calls_role(e, R, "merge")]
         l, r = ("param", 1, I.names.get(1)), ("param", 2, I.names.get(2))
         ok = len(mg) == 1 and mg[0].args == (("proj", 0, l), ("proj", 0, r)) and util.ret_term(st) == ("agg", util.ret_term(st)[1], (mg[0].res,))
         key = "%s|forwards-in-order" % fk(b)
@@ -549,7 +699,7 @@ def _compositions(col, R, crate, sfx):
         b = util.need_body(crate, "Treap::<T>::%s" % nm)
         I = R.A2(b)
         for st in I.final_states:
-            sp = [e for e in st.event_list() if _calls_role(e, R, tgt)]
+            sp = [e for e in st.event_list() if _calls_role(e, R, nm)]
             ret = util.ret_term(st)
             ok = len(sp) == 1 and sp[0].args[0] == ("proj", 0, ("param", 1, I.names.get(1))) and sp[0].args[1] == ("param", 2, I.names.get(2))
             if ok:
